@@ -164,6 +164,11 @@ class URLInfo(object):
             encoding = 'utf-8'
 
         if scheme not in RELATIVE_SCHEME_DEFAULT_PORTS:
+            # Nothing of such a URL is percent-encoded. Text that cannot be
+            # encoded at all (a lone surrogate) is rejected as it is for the
+            # network schemes: UnicodeEncodeError is a ValueError.
+            url.encode('utf-8')
+
             info.raw = url
             info.scheme = scheme
             info.path = remaining
